@@ -1254,6 +1254,31 @@ class Idioms3(ast.NodeTransformer):
             vals.append(_SubstNames(m).visit(clone(node.value)))
         return ast.copy_location(ast.Dict(keys=keys, values=vals), node)
 
+    def visit_List(self, node):
+        self.generic_visit(node)
+        # [a, b, *([c] if t else [])] -> [a, b, c] if t else [a, b]
+        # (t is evaluated after a and b either way; only plain elements
+        # in front, so that the order of evaluation does not matter)
+        if not isinstance(node.ctx, ast.Load):
+            return node
+        st = [e for e in node.elts if isinstance(e, ast.Starred)]
+        if len(st) == 1 and isinstance(st[0].value, ast.IfExp) and all(
+                isinstance(x, (ast.List, ast.Tuple))
+                for x in (st[0].value.body, st[0].value.orelse)) and all(
+                isinstance(e, (ast.Name, ast.Constant))
+                for e in node.elts if e is not st[0]) and isinstance(
+                st[0].value.test, (ast.Name, ast.Constant)):
+            i = node.elts.index(st[0])
+            a = ast.List(elts=node.elts[:i] + list(st[0].value.body.elts)
+                         + node.elts[i + 1:], ctx=ast.Load())
+            b = ast.List(elts=[clone(e) for e in node.elts[:i]]
+                         + list(st[0].value.orelse.elts)
+                         + [clone(e) for e in node.elts[i + 1:]],
+                         ctx=ast.Load())
+            return ast.fix_missing_locations(ast.copy_location(ast.IfExp(
+                test=st[0].value.test, body=a, orelse=b), node))
+        return node
+
     def _true_filters(self, node):
         for g in node.generators:
             g.ifs = [c for c in g.ifs if not (isinstance(
